@@ -160,6 +160,9 @@ def docNaming : Naming := { protocNaming with synthNames := goNaming.synthNames 
     (these are part of the shared pipeline), and the synthetic-oneof name set (`docNaming`) -/
 def reference (ws : Workspace) : Compiled := compileWorkspace specChecks docNaming ws
 
+/-- the reference on the files the compiler is asked for (descriptor.proto added when imported) -/
+def referenceRequested (ws : Workspace) : Compiled := compileRequested specChecks docNaming ws
+
 /-- protoc WITHOUT the synthetic-oneof exemption (documentation of that divergence only) -/
 def referencePureProtoc (ws : Workspace) : Compiled := compileWorkspace specChecks protocNaming ws
 
@@ -193,7 +196,7 @@ def firstDiff : List String → List String → Nat → Option (Nat × String ×
 def linkVerdict (ws : Workspace) (ans : String) : String :=
   if !wellFormed ws then "skip"
   else
-    let ref := reference ws
+    let ref := referenceRequested ws
     -- the part after ` ~ ` is the harness's note (error text, documented-divergence marker)
     let toks := PCV.Wire.words ((ans.splitOn " ~ ").headD "")
     let note := PCV.Wire.words (((ans.splitOn " ~ ").drop 1).headD "")
@@ -353,9 +356,9 @@ def anchorCheck (note : String) (ws : Workspace) : Option String :=
   | ["anchor", _tbl, name, goV, _pV] =>
     if !wellFormed ws then none
     else
-      let acc := (reference ws).errs.isEmpty
+      let acc := (referenceRequested ws).errs.isEmpty
       if (goV == "ok") == acc then none
-      else some s!"fails reference-miscalibrated case={name} table={goV} reference={if acc then "ok" else "err:" ++ " ".intercalate (reference ws).errs.eraseDups}"
+      else some s!"fails reference-miscalibrated case={name} table={goV} reference={if acc then "ok" else "err:" ++ " ".intercalate (referenceRequested ws).errs.eraseDups}"
   | _ => none
 
 /-! ## C27: the two compilers against each other -/
